@@ -10,7 +10,7 @@ Definition wrapper_ok (w : wrapper) : Prop :=
 
 (* the raw-allocator wrappers (everything but the two adapters that re-shape the request) keep kind, count and size,
    never lower the alignment; the re-shaping adapters cover at least the bytes asked for *)
-Definition reshaping (w : wrapper) : bool := match w with WStd _ _ | WResource _ | WAny => true | _ => false end.
+Definition reshaping (w : wrapper) : bool := match w with WStd _ _ | WResource _ | WAny | WNodeOnly => true | _ => false end.
 Definition adapting (w : wrapper) : bool := match w with WStd _ _ | WResource _ => true | _ => false end.
 
 Lemma through_plain w c : reshaping w = false ->
@@ -37,6 +37,7 @@ Proof.
   destruct w; cbn; intros H; try discriminate; unfold bytes_of; cbn; try (split; lia).
   - destruct (lc_kind c) eqn:K; [rewrite K; split; lia|]. destruct (Z.eqb_spec (lc_count c) 1) as [E|E]; cbn; [rewrite E; split; lia|rewrite K; split; lia].
   - split; [reflexivity|]. destruct (Z.gtb_spec min_alignment (lc_align c)); lia.
+  - destruct (lc_kind c) eqn:K; cbn; [rewrite K; split; lia|split; lia].
 Qed.
 
 Theorem forward_bytes : forall ws c, forallb (fun w => negb (adapting w)) ws = true ->
@@ -61,6 +62,13 @@ Theorem std_covers sT aT c : 1 <= lc_count c ->
 Proof.
   intros Hn. cbn. destruct (Z.eqb_spec (lc_count c) 1) as [E|E]; cbn; unfold bytes_of; cbn; [rewrite E|]; split; try lia; reflexivity.
 Qed.
+
+(* allocators that only define the node functions (memory_resource_allocator): the traits turn an array into one node request
+   for count * size bytes at the same alignment; a node request is passed on unchanged *)
+Theorem node_only_covers c :
+  lc_kind (through WNodeOnly c) = KNode /\ lc_size (through WNodeOnly c) = bytes_of c /\ lc_align (through WNodeOnly c) = lc_align c /\
+  lc_leaf (through WNodeOnly c) = lc_leaf c.
+Proof. cbn. unfold bytes_of. destruct (lc_kind c) eqn:K; cbn; rewrite ?K; repeat split; reflexivity. Qed.
 
 (* release: forward is a function of the request alone, so the same user request reaches the leaf with the same
    (leaf, kind, count, size, alignment) on allocation and on release *)
